@@ -28,11 +28,17 @@ def validity_pattern(d):
     ge = d.get("ge", "").split(",")
     enc = d.get("enc", "").split(",")
     s = d.get("s", "").split(",")
+    # which object a failed decode leaves behind (untouched, partly filled, complete) is not specified by any property and is
+    # not compared; what C12 states is that the answers of that object are coherent: where GetError() reports, Encode() reports
+    # too and the score is +0.  (A first version compared the pattern itself: a seeded change that rejects a long input before
+    # parsing it leaves another — equally coherent — object behind and made C12 report a broken correspondence.)
     pat = []
     for l in range(len(ge)):
         bad = ge[l] != "-"
-        pat.append((bad, not (enc[l].endswith("|-")) if l < len(enc) else None,
-                    (s[l] == judge.PZERO) if (bad and l < len(s)) else None))
+        if not bad:
+            pat.append(True)
+        else:
+            pat.append((l >= len(enc) or not enc[l].endswith("|-")) and (l >= len(s) or s[l] == judge.PZERO))
     return (tuple(pat),)
 
 
